@@ -266,6 +266,24 @@ func c28Keys(n int, all bool) []int {
 	return out
 }
 
+// c28MinProofLen: the number of proof levels MerkleTree.Add insists on for a
+// key: the nodes that are new relative to key-1 = trailing zero hex digits of
+// the key (all levels for key 0), at most the tree's level.
+func c28MinProofLen(key, level int) int {
+	if key == 0 {
+		return level
+	}
+	z := 0
+	for key&0xf == 0 {
+		z++
+		key >>= 4
+	}
+	if z > level {
+		z = level
+	}
+	return z
+}
+
 func c28CloneProof(p [][]byte) [][]byte {
 	out := make([][]byte, len(p))
 	for i := range p {
@@ -645,6 +663,150 @@ func (c *c28Ctx) forkCase(s *c28Seq, n, l, variant int) {
 	c.add("forks", 1)
 }
 
+// warmCase: soundness of MerkleTree.Add on a tree that already knows part of
+// the branch. For the finalized tree of N hashes and a warm-up key w, ONE tree
+// instance is filled with genuine proofs (mode "full": the full proof of w on
+// an empty tree; mode "sync": keys 0..w in order with minimal proofs, what a
+// syncing node holds), then, on that same instance, for w itself and its
+// neighbours t (t = w, w+-1, w+-16, w+-256, the ends of w's 16- and 256-block,
+// 0, N-1), for every proof depth the API offers (Prove(t, from) for from =
+// 0..level and the minimal from = -1) and for EVERY element of that proof:
+// the element with one byte flipped, and the element replaced by the genuine
+// node of another key at the same depth, must be rejected - whatever the tree
+// has cached. A wrong hash with the genuine proof must be rejected too. After
+// all alterations, the genuine proofs whose omitted upper part is known to the
+// tree must be accepted.
+func (c *c28Ctx) warmCase(s *c28Seq, n int, wkeys []int) {
+	cs := C28Case{Seq: s.name, Kind: "warm", N: n}
+	if p := ev.Catch(func() {
+		acc, tree, _ := c.open(cs, s, n)
+		if acc == nil {
+			return
+		}
+		hd, err := acc.Finalize()
+		if err != nil {
+			c.r.Violation("finalize-fails", fmt.Sprintf("N=%d: %v", n, err), cs)
+			return
+		}
+		prover, err := hexary.NewMerkleTree(tree, hd, 1024)
+		if err != nil {
+			c.r.Violation("merkletree-open-fails", fmt.Sprintf("N=%d: %v", n, err), cs)
+			return
+		}
+		level := hexary.LevelFromLen(int64(n))
+		proofs := map[[2]int][][]byte{}
+		prove := func(t, from int) [][]byte {
+			k := [2]int{t, from}
+			if pf, ok := proofs[k]; ok {
+				return pf
+			}
+			pf, err := prover.Prove(int64(t), from)
+			if err != nil {
+				c.r.Violation("prove-fails", fmt.Sprintf("N=%d Prove(%d,%d): %v", n, t, from, err), cs)
+				pf = nil
+			}
+			proofs[k] = pf
+			return pf
+		}
+		for _, w := range wkeys {
+			tm := map[int]bool{0: true, n - 1: true, w: true}
+			for _, d := range []int{1, 16, 256} {
+				tm[w-d], tm[w+d] = true, true
+			}
+			tm[w&^15], tm[w|15], tm[w&^255], tm[w|255] = true, true, true, true
+			var targets []int
+			for t := range tm {
+				if t >= 0 && t < n {
+					targets = append(targets, t)
+				}
+			}
+			sort.Ints(targets)
+			for _, mode := range []string{"full", "sync"} {
+				cs.Key = w
+				b := c28Fresh(hd)
+				if mode == "full" {
+					if err := b.Add(int64(w), s.hash[w], c28CloneProof(prove(w, 0))); err != nil {
+						c.r.Violation("valid-proof-rejected:warmup-full", fmt.Sprintf("N=%d key=%d: %v", n, w, err), cs)
+						continue
+					}
+				} else {
+					bad := false
+					for k := 0; k <= w && !bad; k++ {
+						if err := b.Add(int64(k), s.hash[k], c28CloneProof(prove(k, -1))); err != nil {
+							c.r.Violation("valid-proof-rejected:warmup-sync", fmt.Sprintf("N=%d key=%d of 0..%d: %v", n, k, w, err), cs)
+							bad = true
+						}
+					}
+					if bad {
+						continue
+					}
+				}
+				known := func(t, from int) bool { // are the omitted upper nodes of Prove(t,from) known to b?
+					if from <= 0 {
+						return from == 0
+					}
+					if mode == "sync" && t <= w {
+						return true
+					}
+					sh := uint((level - from + 1) * 4)
+					return w>>sh == t>>sh
+				}
+				var alts int64
+				for _, t := range targets {
+					other := (t + n/2 + 1) % n
+					for from := -1; from <= level; from++ {
+						pf := prove(t, from)
+						kind := "partial-proof"
+						if from == 0 {
+							kind = "full-proof"
+						} else if from < 0 {
+							kind = "minimal-proof"
+						}
+						try := func(what string, h []byte, alt [][]byte) {
+							alts++
+							if err := b.Add(int64(t), h, alt); err == nil {
+								c.r.Violation("altered-proof-accepted:after-warmup-"+mode+":"+what+":"+kind, fmt.Sprintf("N=%d: tree warmed with key %d (%s), then Add(key %d, Prove(%d,%d) with %s) was accepted", n, w, mode, t, t, from, what), cs)
+							}
+						}
+						if s.distinct && n > 1 && (from == 0 || known(t, from)) {
+							try("another-hash", s.hash[(t+1)%n], c28CloneProof(pf))
+						}
+						for e := range pf {
+							fl := c28CloneProof(pf)
+							fl[e][(t*7+e*13+w)%len(fl[e])] ^= 0x01 << uint((t+e)%8)
+							try(fmt.Sprintf("flipped-byte-in-element-%d-of-%d", e, len(pf)), s.hash[t], fl)
+							if opf := prove(other, from); s.distinct && len(opf) == len(pf) && !bytes.Equal(opf[e], pf[e]) {
+								sw := c28CloneProof(pf)
+								sw[e] = append([]byte{}, opf[e]...)
+								try(fmt.Sprintf("foreign-node-in-element-%d-of-%d", e, len(pf)), s.hash[t], sw)
+							}
+						}
+					}
+				}
+				c.add("warm_alterations_rejected_or_reported", alts)
+				// genuine proofs are (still) accepted by the same instance
+				for _, t := range targets {
+					for from := -1; from <= level; from++ {
+						if from < 0 {
+							continue // minimal proofs assume key t-1 was added; covered by the in-order run
+						}
+						if !known(t, from) || level-from < c28MinProofLen(t, level) {
+							continue // Add documents a minimum proof length per key (new nodes since key-1)
+						}
+						if err := b.Add(int64(t), s.hash[t], c28CloneProof(prove(t, from))); err != nil {
+							c.r.Violation("valid-proof-rejected:after-warmup-"+mode, fmt.Sprintf("N=%d: tree warmed with key %d (%s), then genuine Add(key %d, Prove(%d,%d)): %v", n, w, mode, t, t, from, err), cs)
+						}
+						c.add("warm_genuine_accepted", 1)
+					}
+				}
+			}
+			c.add("warm_cases", 1)
+		}
+	}); p != "" {
+		c.r.Violation("warm-panic", fmt.Sprintf("N=%d warm-up key %d: %s", n, cs.Key, p), cs)
+	}
+}
+
 // build runs phase 1 for a sequence: a master accumulator adds the hashes one
 // by one (its tree bucket is the shared log), a second accumulator is
 // re-opened from its own buckets before every add; both must agree with the
@@ -742,8 +904,9 @@ func TestVerifC28(t *testing.T) {
 	small := r.Pick(300, 1000) // every (N,l) pair and every key up to here
 	constN := 300
 	forkAll := r.Pick(96, 200) // every (N,l) fork pair up to here
+	warmAll := r.Pick(48, 300) // warm-up soundness cases for every N up to here (plus 272, 300 and the special N)
 	c := &c28Ctx{r: r, readd: 17, maxSmall: r.Pick(64, 300)}
-	r.Rule(fmt.Sprintf("hash sequence h_i = SHA3(i) ('distinct') for N = 0..%d and the constant sequence ('constant', positive checks only) for N = 0..%d; phase 1: header after every add of a live accumulator and of one re-opened from its buckets before every add, against the reference root; in every situation ALL header-returning entry points are compared with the reference: Len, GetMerkleHeader and Finalize in both orders and repeated, proofs of the first and last key against the finalized header, and the view of an accumulator re-opened from the buckets; phase 1 also on a live accumulator finalized after every add; phase 2 on exact copies of the buckets after N adds: 'header' every N (re-opened, also after the no-op SetLen(N)); 'proof' every N<=%d with every key, larger N with key boundaries and every 16th key: Prove(key,0) accepted by a fresh tree made from the header, and for the distinct sequence rejected with another hash, as key+1/key-1, with one byte flipped in each level, with each level dropped; keys in order with Prove(key,-1) into one tree (N<=%d and the special N); 'rewind' SetLen(l): every pair l<=N<=%d, for larger N: every l for N in {16^k-1,16^k,16^k+1,%d} and l in {0,N-1,N-15,N-16,N-17,16^k-1,16^k,16^k+1} for every N; each rewind on two copies (Finalize asked first / GetMerkleHeader asked first; for odd N+l the N-state is finalized before the rewind): immediately after SetLen(l), before any Add, all entry points incl. the re-opened view (for l=0 the re-opened view is only an observation) = reference of the prefix; SetLen(l+1) fails; re-add (all up to N for N<=%d, else %d) with all entry points after every add; proofs of keys l-1,l; second rewind to l/2 with all entry points; 'fork' (distinct sequence): every l<N<=%d and the boundary l (0,1,N-1,N-2,N-15..N-17,16^k-1..16^k+1, multiples of 16) for larger N: all entry points asked at N, SetLen(l), DIFFERENT hashes added, 3 variants (no query before reaching N again then N+1; grown to N+2 and rewound to N; queries at an intermediate length), all entry points incl. proofs of the new leaves against the reference of the forked sequence. evaluation = one case; non-trivial = distinct (sequence, kind, N, l)", maxN, constN, small, small, small, maxN, c.maxSmall, c.readd, forkAll))
+	r.Rule(fmt.Sprintf("hash sequence h_i = SHA3(i) ('distinct') for N = 0..%d and the constant sequence ('constant', positive checks only) for N = 0..%d; phase 1: header after every add of a live accumulator and of one re-opened from its buckets before every add, against the reference root; in every situation ALL header-returning entry points are compared with the reference: Len, GetMerkleHeader and Finalize in both orders and repeated, proofs of the first and last key against the finalized header, and the view of an accumulator re-opened from the buckets; phase 1 also on a live accumulator finalized after every add; phase 2 on exact copies of the buckets after N adds: 'header' every N (re-opened, also after the no-op SetLen(N)); 'proof' every N<=%d with every key, larger N with key boundaries and every 16th key: Prove(key,0) accepted by a fresh tree made from the header, and for the distinct sequence rejected with another hash, as key+1/key-1, with one byte flipped in each level, with each level dropped; keys in order with Prove(key,-1) into one tree (N<=%d and the special N); 'rewind' SetLen(l): every pair l<=N<=%d, for larger N: every l for N in {16^k-1,16^k,16^k+1,%d} and l in {0,N-1,N-15,N-16,N-17,16^k-1,16^k,16^k+1} for every N; each rewind on two copies (Finalize asked first / GetMerkleHeader asked first; for odd N+l the N-state is finalized before the rewind): immediately after SetLen(l), before any Add, all entry points incl. the re-opened view (for l=0 the re-opened view is only an observation) = reference of the prefix; SetLen(l+1) fails; re-add (all up to N for N<=%d, else %d) with all entry points after every add; proofs of keys l-1,l; second rewind to l/2 with all entry points; 'fork' (distinct sequence): every l<N<=%d and the boundary l (0,1,N-1,N-2,N-15..N-17,16^k-1..16^k+1, multiples of 16) for larger N: all entry points asked at N, SetLen(l), DIFFERENT hashes added, 3 variants (no query before reaching N again then N+1; grown to N+2 and rewound to N; queries at an intermediate length), all entry points incl. proofs of the new leaves against the reference of the forked sequence; 'warm' (distinct sequence): every N<=%d and N in {272,300, 16^k-1,16^k,16^k+1, max} x every warm-up key w (N<=%d: all keys, else boundaries and every 16th) x 2 warm-up modes (full proof of w on an empty tree / keys 0..w in order with minimal proofs) on ONE tree instance x targets t in {w, w+-1, w+-16, w+-256, ends of w's 16- and 256-block, 0, N-1} x every proof depth Prove(t,from), from=-1,0..level x EVERY proof element: one byte flipped / replaced by another key's node must be rejected, also a wrong hash; afterwards the genuine proofs with known upper part are accepted. evaluation = one case; non-trivial = distinct (sequence, kind, N, l)", maxN, constN, small, small, small, maxN, c.maxSmall, c.readd, forkAll, warmAll, small))
 	r.Assume("reference root: groups of 16 hashed level by level with SHA3-256 until one hash is left; a single hash is its own root", "storage: an in-memory db.Bucket of the harness that copies on Set and Get", "'rejected' means Add returns any error (ErrVerify and other errors are counted separately)")
 
 	seqs := []*c28Seq{}
@@ -767,6 +930,8 @@ func TestVerifC28(t *testing.T) {
 				c.rewindCase(s, cs.N, cs.L)
 			case "fork":
 				c.forkCase(s, cs.N, cs.L, cs.Key)
+			case "warm":
+				c.warmCase(s, cs.N, []int{cs.Key})
 			default:
 				c.headerCase(s, cs.N)
 			}
@@ -788,6 +953,17 @@ func TestVerifC28(t *testing.T) {
 		for n := 0; n <= top; n++ { // small N first: the first reported violations are minimal ones
 			jobs = append(jobs, job{s: s, kind: "header", n: n})
 			jobs = append(jobs, job{s: s, kind: "proof", n: n})
+			if s.distinct && n > 0 && (n <= warmAll || special[n] || n == 272 || n == 300) {
+				wk := c28Keys(n, n <= small)
+				for len(wk) > 0 {
+					k := len(wk)
+					if k > 16 {
+						k = 16
+					}
+					jobs = append(jobs, job{s: s, kind: "warm", n: n, ls: wk[:k]})
+					wk = wk[k:]
+				}
+			}
 			var ls []int
 			if n <= small || special[n] {
 				for l := 0; l <= n; l++ {
@@ -856,6 +1032,12 @@ func TestVerifC28(t *testing.T) {
 		case "proof":
 			c.proofCase(j.s, j.n, j.n <= small, j.n <= small || special[j.n])
 			r.Nontrivial(fmt.Sprintf("%s/p/%d", j.s.name, j.n))
+		case "warm":
+			c.warmCase(j.s, j.n, j.ls)
+			for _, w := range j.ls {
+				r.Nontrivial(fmt.Sprintf("%s/w/%d/%d", j.s.name, j.n, w))
+			}
+			r.Eval(len(j.ls))
 		case "fork":
 			for _, l := range j.ls {
 				for v := 0; v < 3; v++ {
@@ -895,6 +1077,7 @@ func TestVerifC28(t *testing.T) {
 	}
 	r.Sanity(len(seqs) == 2, "a sequence could not be built")
 	r.Sanity(skipped > 0 || c.get("forks") > 0, "no fork case ran")
+	r.Sanity(skipped > 0 || (c.get("warm_cases") > 0 && c.get("warm_genuine_accepted") > 0), "no warm-up case ran")
 	r.Sanity(c.get("full_proofs_accepted") > 0 && c.get("partial_proofs_accepted") > 0, "no proof accepted")
 	r.Sanity(c.get("rejected_with_ErrVerify") > 0, "no altered proof was rejected with ErrVerify")
 	r.Sanity(skipped > 0 || (c.get("rewinds_l=16^k") > 0 && c.get("rewinds_l=16^k-1") > 0 && c.get("rewinds_l=16^k+1") > 0 && c.get("rewinds_l=0") > 0), "rewind classes missing")
